@@ -135,7 +135,9 @@ async fn turn() {
     tokio::task::yield_now().await;
 }
 
-async fn peer_task(net: Arc<Net>, addr: SocketAddr, c: Conn, hits: Arc<AtomicU64>, port: u16) -> Outcome {
+/// `release`: a half-open connection is held open (nothing sent, nothing closed) until the other
+/// connections of its group have finished, so that whoever serves it is kept busy meanwhile.
+async fn peer_task(net: Arc<Net>, addr: SocketAddr, c: Conn, hits: Arc<AtomicU64>, port: u16, release: Arc<std::sync::atomic::AtomicBool>) -> Outcome {
     let mut o = Outcome { hits_before: hits.load(Ordering::SeqCst), ..Default::default() };
     let peer = SocketAddr::new(PEER_POOL[c.peer].parse().unwrap(), port);
     let id = match net.peer_connect(addr, peer, 1 << 16) {
@@ -186,8 +188,9 @@ async fn peer_task(net: Arc<Net>, addr: SocketAddr, c: Conn, hits: Arc<AtomicU64
             break;
         }
         turns += 1;
-        let limit = if expect_responses == 0 { 300 } else { 2_000_000 };
-        if turns > limit || t0.elapsed() > Duration::from_secs(5) {
+        let holding = c.kind == Kind::HalfOpen && !release.load(Ordering::SeqCst);
+        let limit = if holding { 4_000_000 } else if expect_responses == 0 { 300 } else { 2_000_000 };
+        if turns > limit || t0.elapsed() > Duration::from_secs(if holding { 8 } else { 5 }) {
             break;
         }
         turn().await;
@@ -285,24 +288,32 @@ impl Scenario for C18Http {
                     counter.increment(1);
                     hits.fetch_add(1, Ordering::SeqCst);
                     let mut tasks = vec![];
+                    let release = Arc::new(std::sync::atomic::AtomicBool::new(false));
                     for c in g {
                         port += 1;
-                        tasks.push(tokio::spawn(peer_task(net2.clone(), addr, c.clone(), hits.clone(), port)));
+                        tasks.push(Some(tokio::spawn(peer_task(net2.clone(), addr, c.clone(), hits.clone(), port, release.clone()))));
                     }
                     // metrics keep changing while the group is being served
                     counter.increment(1);
                     hits.fetch_add(1, Ordering::SeqCst);
-                    let mut outs = vec![];
-                    for t in tasks {
-                        outs.push(t.await.map_err(|e| format!("peer task: {}", e))?);
+                    // half-open connections are released only when everybody else has been served
+                    let mut outs: Vec<Option<Outcome>> = g.iter().map(|_| None).collect();
+                    for pass in 0..2 {
+                        for (i, c) in g.iter().enumerate() {
+                            if (c.kind == Kind::HalfOpen) == (pass == 1) {
+                                let t = tasks[i].take().unwrap();
+                                outs[i] = Some(t.await.map_err(|e| format!("peer task: {}", e))?);
+                            }
+                        }
+                        release.store(true, Ordering::SeqCst);
                     }
-                    all.push(outs);
+                    all.push(outs.into_iter().map(|o| o.unwrap()).collect());
                 }
                 // after any prefix of bad connections a well-formed request from an allowed peer is answered
                 net2.faults.lock().unwrap().disable();
                 let probe_peer = (0..PEER_POOL.len()).find(|i| model_allowed(&p.allow, *i));
                 let probe = match probe_peer {
-                    Some(pp) => peer_task(net2.clone(), addr, Conn { peer: pp, kind: Kind::Get(0), chunk: 100_000 }, hits.clone(), 50_000).await,
+                    Some(pp) => peer_task(net2.clone(), addr, Conn { peer: pp, kind: Kind::Get(0), chunk: 100_000 }, hits.clone(), 50_000, Arc::new(std::sync::atomic::AtomicBool::new(true))).await,
                     None => Outcome { responses: vec![(200, b"# no allowed peer in the pool\n".to_vec())], ..Default::default() },
                 };
                 server.abort();
